@@ -418,7 +418,7 @@ class GroupedType(BaseDataType):
 class AddressType(OctetStringType):
     @abc.abstractmethod
     def __init__(self, data, vendor_id=None):
-        AddressType.parser_data(self, data)
+        self.parser_data(data)
         OctetStringType.__init__(self, data, vendor_id)
 
 
@@ -439,6 +439,10 @@ class AddressType(OctetStringType):
                     raise DataTypeError("Stream of bytes does not "\
                                         "correspond to a valid IPv6 address "\
                                         "format")
+
+            else:
+                raise DataTypeError("Stream of bytes does not start with "\
+                                    "the IPv4 or IPv6 address family code")
 
         else:
             ip_address = ipaddress.ip_address(data)
